@@ -279,15 +279,17 @@ def content_length_cases(ctx, part, nparts, deep):
     for sp in SPELLINGS:
         for body in bodies:
             for trailers in (False, True):
-                for role in ("request", "response"):
+                for role in ("request", "response", "push"):
                     for endmode in ("fin-with-last", "lone-fin", "headers-end" if not body and not trailers else None):
                         if endmode is None:
                             continue
                         i += 1
                         if i % nparts != part:
                             continue
-                        hdrs = BASE[role] + [(b"content-length", sp)]
-                        data = B.frame(FrameType.HEADERS, B.qpack_literal(hdrs))
+                        hdrs = BASE["response" if role == "push" else role] + [(b"content-length", sp)]
+                        # (push: a pushed response on a server-initiated unidirectional stream of type 0x01 with push ID 0)
+                        sid = 15 if role == "push" else 0
+                        data = (B.varint(1) + B.varint(0) if role == "push" else b"") + B.frame(FrameType.HEADERS, B.qpack_literal(hdrs))
                         total = 0
                         for n in body:
                             data += B.frame(FrameType.DATA, bytes(range(total, total + n)))
@@ -302,12 +304,12 @@ def content_length_cases(ctx, part, nparts, deep):
                             chunkings += [[data[:c], data[c:]] for c in cuts if 0 < c < len(data)]
                             chunkings.append([data[k : k + 1] for k in range(len(data))])
                         for chunks in chunkings:
-                            plan = [(0, c, False) for c in chunks]
+                            plan = [(sid, c, False) for c in chunks]
                             if endmode == "lone-fin":
-                                plan.append((0, b"", True))
+                                plan.append((sid, b"", True))
                             else:
-                                plan[-1] = (0, plan[-1][1], True)
-                            evs, q, _ = B.deliver(plan, is_client=(role == "response"))
+                                plan[-1] = (sid, plan[-1][1], True)
+                            evs, q, _ = B.deliver(plan, is_client=(role != "request"))
                             got_len = sum(len(e.data) for e in evs if isinstance(e, E.DataReceived))
                             ended = any(getattr(e, "stream_ended", False) for e in evs if isinstance(e, (E.DataReceived, E.HeadersReceived)))
                             got_headers = any(isinstance(e, E.HeadersReceived) for e in evs)
